@@ -73,6 +73,13 @@ Theorem C10_srcset_never_panics :
 Proof. exact srcset_never_panics_lemma. Qed.
 Print Assumptions C10_srcset_never_panics.
 
+(* reddit.ExtractAPIPostPermalinks: whatever the JSON decoder yields for data.dist and
+   data.children (the server controls both, independently), Children[0] is in bounds. *)
+Theorem C10_reddit_permalinks_never_panics :
+  forall decoded : option (Z * list bytes), exists r, reddit_permalinks decoded = Ok r.
+Proof. exact reddit_permalinks_never_panics_lemma. Qed.
+Print Assumptions C10_reddit_permalinks_never_panics.
+
 (* Post-processing dispatch (postprocessItem, extractAssets, extractOutlinks, the Is* predicates):
    for every status code, every valuation of the header / MIME / URL / body predicates, body kept
    or not, every configuration and every extractor outcome, nothing nil is dereferenced - given
